@@ -85,8 +85,10 @@ theorem bucketStage_groups (o : Fields) (docs out : List Val)
           · split at h
             · cases h
             · rename_i output _
-              obtain ⟨_, rs, _, h2, h3⟩ := bucket_tail _ output docs out h
-              exact ⟨output, rs, h2, h3⟩
+              split at h
+              · cases h
+              · obtain ⟨_, rs, _, h2, h3⟩ := bucket_tail _ output docs out h
+                exact ⟨output, rs, h2, h3⟩
     · cases h
     · cases h
 
